@@ -28,9 +28,9 @@ func init() {
 		Run:  c01Flags})
 	register(&Rule{ID: "C01.clean", Floor: 20,
 		Text: "a path that is not lexically clean behaves as its Clean() form: no string parameter of an exported OrefaFS method reaches an index of the path map (directly or through an unexported helper) except through Abs / SplitAbs of it; MemFS indexes its directories only with parts produced by the path iterator over the absolute path",
-		Also: []string{"C05"},
+		Also: []string{"C05", "C04"},
 		Run:  c01Clean})
-	register(&Rule{ID: "C01.last", Floor: 4,
+	register(&Rule{ID: "C01.last", Floor: 4, Also: []string{"C04"},
 		Text: "an entry named after the element at which the walk stopped is created only when that element is the last one of the path (pi.IsLast()): a missing intermediate directory is ENOENT, never a creation under the wrong name (MkdirAll, which creates the intermediate directories, excepted)",
 		Run:  c01Last})
 }
@@ -544,6 +544,12 @@ func c01Last(rc *RuleCtx) {
 					key := resolve1(args[p.keyParam])
 					pc, _ := resultOfCall(key)
 					if pc == nil || calleeFunc(pc) == nil || calleeFunc(pc).Name() != "Part" {
+						if objKeyOf(args[p.objParam]).fresh {
+							continue
+						}
+						seq++
+						rc.bad(fmt.Sprintf("%s create %s#%d", funcName(f), prettyVal(key, 0), seq), ci.Pos(),
+							"an entry is created in the directory where the walk stopped under a name that is not the walk iterator's current part ("+prettyVal(key, 0)+"): when symbolic links were followed, the element where the walk stopped is not the last element of the caller's string")
 						continue
 					}
 					iter := callRecv(pc)
